@@ -158,7 +158,7 @@ package receiver
 //@   ensures[C09] [walk-error-passed-on] err != nil ==> ret == err && ghost.removed == old(ghost.removed)
 //@   ensures[C09] [listed-kept] err == nil && inList(fileList, path) ==> ret == nil && ghost.removed == old(ghost.removed)
 //@   ensures[C09] [dry-run-keeps] rt.Opts.DryRun ==> ghost.removed == old(ghost.removed)
-//@   ensures[C09] [extraneous-removed] err == nil && !inList(fileList, path) && !rt.Opts.DryRun ==> ghost.removed == store(old(ghost.removed), pathKey(rt.DestRoot, path), true)
+//@   ensures[C09] [extraneous-removed] err == nil && !inList(fileList, path) && !rt.Opts.DryRun && !userExcludes(rt, path) ==> ghost.removed == store(old(ghost.removed), pathKey(rt.DestRoot, path), true)
 //@   ensures[C09] [skipdir-only-for-directories] isSkipDir(ret) && err == nil ==> modeIsDir(infoMode(entryInfo(data(info))))
 
 //@ func (*receiver.Transfer).deleteFiles
@@ -291,3 +291,18 @@ package receiver
 //@ func (*receiver.Transfer).ReceiveFileList
 //@   at[C15,C14] receiver.sortFileList: set ghost.flistEnd = select(ghost.rpos, data(rt.Conn.Reader))
 //@   at[C15,C14] (*rsyncwire.Conn).ReadInt32: assert [io-error-flag-follows-the-id-lists] select(ghost.rpos, data(rt.Conn.Reader)) == afterListIf(rt.Opts.PreserveGid, data(rt.Conn.Reader), afterListIf(rt.Opts.PreserveUid, data(rt.Conn.Reader), ghost.flistEnd))
+
+// ---------------------------------------------------------------- C09: entries the user's rules protect
+// userExcludes(rt, name): the user's filter rules (rt.Filter, set by whoever
+// builds the Transfer: the client from its own rules, the daemon from the
+// list it received) exclude name. Such an entry of the destination is
+// protected from --delete, and for a directory so is everything below it:
+// the walk does not descend.
+//@ spec func filterExcludes(f: int, name: Str): bool
+//@ extern (receiver.Filter).Matches params f, name
+//@   pure
+//@   ensures result <==> filterExcludes(data(f), name)
+//@ spec func userExcludes(rt: *receiver.Transfer, name: Str): bool = rt.Filter != nil && name != "." && filterExcludes(data(rt.Filter), name)
+//@ func (*receiver.Transfer).deleteFiles$1
+//@   ensures[C09] [rule-protected-kept] userExcludes(rt, path) ==> ghost.removed == old(ghost.removed)
+//@   ensures[C09] [rule-protected-directory-not-entered] err == nil && !inList(fileList, path) && userExcludes(rt, path) && modeIsDir(infoMode(entryInfo(data(info)))) ==> ret == global("io/fs.SkipDir")
